@@ -69,6 +69,14 @@ def probe_instants(rz, rng, extra_random=3):
     return [(i, off, ts) for (i, off, ts) in out if -62135596800 + 200000 < ts < 253402300799 - 200000]
 
 
+def wall_positions_unsorted(rz):
+    """are the wall-clock positions of the transitions (instant + smaller of the two offsets around it) out of order?"""
+    pos = []
+    for i, t in enumerate(rz.trans):
+        pos.append(t + min(rz.type_at(t - 1)[0], rz.type_at(t)[0]))
+    return any(a > b for a, b in zip(pos, pos[1:]))
+
+
 def check_zone(ctx, tz, label, z, rz, rng, fhash, full=True):
     UTC = tz.UTC
     n_bad = 0
@@ -96,16 +104,25 @@ def check_zone(ctx, tz, label, z, rz, rng, fhash, full=True):
         bad = []
         if got[0] != exp[0]:
             bad.append('fromutc moved the clock by %d s, the data says %d s' % (got[0], exp[0]))
-        if wild:
-            # offset changes larger than the transition spacing: a wall time has more than two pre-images, so only the
-            # UTC -> wall displacement is well defined; utcoffset()/tzname() of the *wall* time are don't-cares
-            pass
-        elif got[1] != exp[0]:
-            bad.append('utcoffset() of the converted datetime is %d s, the data says %d s' % (got[1], exp[0]))
-        if not wild and got[2] != exp[2]:
-            bad.append('tzname() %r, the data says %r' % (got[2], exp[2]))
-        if not wild and not exp[1] and got[3] != D.timedelta(0):
-            bad.append('dst() is %r at a standard-time instant' % (got[3],))
+        wall_side = []
+        if got[1] != exp[0]:
+            wall_side.append('utcoffset() of the converted datetime is %d s, the data says %d s' % (got[1], exp[0]))
+        if got[2] != exp[2]:
+            wall_side.append('tzname() %r, the data says %r' % (got[2], exp[2]))
+        if not exp[1] and got[3] != D.timedelta(0):
+            wall_side.append('dst() is %r at a standard-time instant' % (got[3],))
+        if wild and wall_side and not bad:
+            # offset changes larger than the transition spacing: utcoffset()/tzname() are read from wall time + fold, which
+            # can tell two instants apart - a wall time with more than two pre-images is a don't-care; with at most two
+            # the reading is expressible, and a wrong one is the open finding K7 (wall-clock transition list not ascending)
+            if len(rz.preimages(ts + exp[0])) > 2:
+                ctx.count('wild_more_than_two_preimages')
+            elif wall_positions_unsorted(rz):
+                ctx.known_finding('K7', '%s utc %d: %s' % (label, ts, '; '.join(wall_side)), {'zone': label, 'utc': ts})
+            else:
+                bad += wall_side
+        elif not wild:
+            bad += wall_side
         if not wild and not bad and ts + 200000 < (rz.trans[-1] if rz.trans else 0):
             # the same reading from the wall side: a wall time with exactly one pre-image in the data carries the type of
             # that instant whatever its fold bit says
@@ -171,12 +188,18 @@ def check_load_paths(ctx, tz, name, path, data, rz, rng):
         ctx.distinct('loadpath|%s|%s' % (name, k))
 
 
-def check_archive(ctx, tz, members, rng):
+def check_archive(ctx, tz, members, rng, metadata='last'):
     """ZoneInfoFile over a tar archive built by the harness, including link entries"""
     from dateutil.zoneinfo import ZoneInfoFile
     import random
     buf = io.BytesIO()
+    meta = b'{"tzversion": "test"}'
+    mti = tarfile.TarInfo('METADATA')
+    mti.size = len(meta)
+    ctx.count('archives_metadata_' + metadata)
     with tarfile.open(fileobj=buf, mode='w:gz') as tf:
+        if metadata == 'first':
+            tf.addfile(mti, io.BytesIO(meta))
         for name, path, data, rz in members:
             ti = tarfile.TarInfo(name)
             ti.size = len(data)
@@ -190,12 +213,13 @@ def check_archive(ctx, tz, members, rng):
         sl.type = tarfile.SYMTYPE
         sl.linkname = members[-1][0]
         tf.addfile(sl)
-        meta = b'{"tzversion": "test"}'
-        ti = tarfile.TarInfo('METADATA')
-        ti.size = len(meta)
-        tf.addfile(ti, io.BytesIO(meta))
+        if metadata == 'last':
+            tf.addfile(mti, io.BytesIO(meta))
     buf.seek(0)
     zf = ZoneInfoFile(buf)
+    # an archive without the METADATA member is supported: zones and link entries load, metadata is None
+    if (zf.metadata is None) != (metadata == 'none'):
+        ctx.violation('archive-metadata', {'load_path': 'archive', 'metadata_member': metadata}, 'ZoneInfoFile.metadata = %r' % (zf.metadata,))
     for name, path, data, rz in members:
         ctx.ev()
         ctx.count('loadpath_archive')
@@ -275,7 +299,8 @@ def run(ctx):
         for name, path, data, rz, sh in mine[:6]:
             check_load_paths(ctx, tz, name, path, data, rz, rng)
         if mine:
-            check_archive(ctx, tz, [(n, p, d, r) for n, p, d, r, s in mine[:5]], rng)
+            for metadata in ('last', 'none', 'first'):
+                check_archive(ctx, tz, [(n, p, d, r) for n, p, d, r, s in mine[:5]], rng, metadata)
         # synthetic files (every shard takes a slice)
         syn = tzzoo.synthetic(rng, wild=True)
         tmpd = tempfile.mkdtemp(prefix='vfc06')
@@ -319,7 +344,8 @@ def floors(agg, tier):
         if c.get('shape_' + s, 0) < 1:
             out.append('no real file with shape %s was reached' % s)
     for k in ('loadpath_path', 'loadpath_stream', 'loadpath_gettz', 'loadpath_pickle', 'loadpath_copy', 'loadpath_deepcopy',
-              'loadpath_archive', 'loadpath_archive_link', 'loadpath_archive_pickle'):
+              'loadpath_archive', 'loadpath_archive_link', 'loadpath_archive_pickle', 'archives_metadata_last', 'archives_metadata_none',
+              'archives_metadata_first'):
         if c.get(k, 0) < 4:
             out.append('load path %s exercised only %d times' % (k, c.get(k, 0)))
     for k in ('tzfile.fromutc', 'tzfile.utcoffset', 'tzfile.tzname', 'tzfile.dst'):
